@@ -32,6 +32,7 @@ RULE += " Added after the seeded rounds: " + 'Tools are also requested as an arg
 RULE += ' In the LLM tool loop one provider turn requests the tool under test twice plus every other registered tool, with call ids that are distinct, all equal, empty, or equal with the order reversed (a verdict about one call must never cover another); enumerated for two tools x both registration orders x 4 id modes.'
 RULE += " Capability sets include non-enum string tags ('gpu', 'custom:db', which the engine supports) and sets larger than the enum (up to 8 entries)."
 RULE += " Round 7: `peer` steps build a second engine with an allowed set of its own, hand it the very tool object the first engine holds (engulf_tool(m.tools[name])) and request the tool there; every request is judged by the policy of the engine it was made on and the requirement declared at registration."
+RULE += " Round 8: `policy` steps replace the engine's allowed set through its public `allowed_capabilities` attribute between requests."
 EXHAUSTIVE_NOTE = {"quick": "16 allowed sets (incl. None, empty, full, sets with non-enum tags and sets larger than the enum) x 16 required sets x 10 entry points = 2560 single-tool cases, complete for that lattice; re-registration race: 3 configurations x 4 entry points x every single preemption point up to step 90",
                    "thorough": "same lattice, complete; race table up to step 160"}
 
@@ -54,6 +55,8 @@ _step = st.one_of(
     st.tuples(st.just("call"), st.sampled_from(ENTRIES), st.sampled_from(TOOLS)),
     st.tuples(st.just("call"), st.sampled_from(["execute_tool_call", "nucleus", "auto"]), st.sampled_from(TOOLS)),
     st.tuples(st.just("call"), st.sampled_from(["execute_tool_call", "nucleus", "auto", "forced-tool"]), st.sampled_from(TOOLS), st.sampled_from(["upper", "title", "padded"])),
+    # the engine's policy is replaced through its public attribute: from then on requests are judged by the new allowed set
+    st.tuples(st.just("policy"), st.one_of(st.just([]), _caps, st.just(list(CAPS) + TAGS))),
     # a second engine with a policy of its own is handed the very tool object the first one holds, and asked for it
     st.tuples(st.just("peer"), st.sampled_from(["execute_tool_call", "nucleus", "auto", "forced-tool"]), st.sampled_from(TOOLS), st.one_of(st.none(), st.just([]), _caps, st.just(list(CAPS) + TAGS))),
 ).map(list)
@@ -102,6 +105,9 @@ def enumerate_cases(tier):
         for entry in RACE_ENTRIES:
             for s1 in range(1, horizon):
                 yield {"allowed": allowed, "init": [], "steps": [], "race": {"old": old, "new": ["NET"], "entry": entry, "how": "engulf", "plan": {"first": 0, "preempt": [[s1, 1]]}}}
+    for entry in ("auto", "forced-tool", "execute_tool_call", "nucleus"):
+        for req, a1, a2 in ((["NET", "MONEY"], ["NET"], ["MONEY"]), (["NET"], ["NET"], []), (["NET"], list(CAPS), ["READ_FS"]), (["NET", "MONEY"], ["MONEY"], ["NET"]), (["gpu", "NET"], ["NET"], ["gpu"])):
+            yield {"allowed": a1, "init": [], "steps": [["reg", "engulf", "t0", req], ["call", entry, "t0"], ["policy", a2], ["call", entry, "t0"], ["call", "execute_tool_call", "t0"]]}
     for entry in ("auto", "forced-tool", "execute_tool_call", "nucleus"):
         for pentry in ("auto", "execute_tool_call", "nucleus"):
             for req, allowed, pallowed in ((["NET"], [], ["NET"]), (["NET"], [], None), (["NET", "MONEY"], ["NET"], ["MONEY"]), (["NET", "MONEY"], ["MONEY"], ["NET"]),
@@ -191,6 +197,7 @@ def judge(case):
         _race(case, out, m, register, regs, Nucleus, LLMResponse, ToolCall, MetabolicPathway)
         return out
 
+    cur_allowed = case["allowed"]
     for i, step in enumerate(case["steps"]):
         if step[0] == "reg":
             try:
@@ -199,8 +206,13 @@ def judge(case):
                 out.fail("raise:%s:register" % type(e).__name__, "registration raised %s" % e, {"step": i})
                 return out
             continue
+        if step[0] == "policy":
+            cur_allowed = list(step[1])
+            m.allowed_capabilities = {_cap(Capability, c) for c in cur_allowed}
+            out.label("policy-reassigned")
+            continue
         entry, name = step[1], step[2]
-        eng, eng_allowed = m, case["allowed"]
+        eng, eng_allowed = m, cur_allowed
         if step[0] == "peer":
             tool_obj = m.tools.get(name)
             if tool_obj is None:
